@@ -94,7 +94,14 @@ def synthetic(key):
     M = A.dot(A.T) + 0.05 * np.eye(n)
     M = np.round(M, 6)
     M = (M + M.T) / 2.0
-    if rng.random() < 0.5:
+    int_matrix = rng.random() < 0.3
+    if int_matrix:
+        # a matrix written with integer literals only (the loader keeps an
+        # integer dtype): products with counts of ~1e9 leave int64
+        Ai = np.array([[rng.randint(-3, 3) for _ in range(n)]
+                       for _ in range(n)])
+        M = (Ai.dot(Ai.T) + np.eye(n, dtype=int)).astype(int)
+    if rng.random() < 0.5 and not int_matrix:
         # "M is the stored matrix": a stored matrix need not be symmetric.
         # An antisymmetric part leaves x'Mx unchanged, but not what a loader
         # that "repairs" the matrix from one triangle computes.
@@ -110,7 +117,9 @@ def synthetic(key):
     rm['S'] = round(rng.uniform(-1, 3), 4)
     order = list(names)
     rng.shuffle(order)
-    uq = {'RMSE': rm, 'dof': rng.randint(3, 90), 'mat': M.tolist(),
+    uq = {'RMSE': rm, 'dof': rng.randint(3, 90),
+          'mat': [[int(v) for v in row] for row in M.tolist()]
+          if int_matrix else M.tolist(),
           'groups': order}
     # the matrix rows/cols follow `order`
     text = libfiles.render_library(groups, descs, uq=uq)
@@ -287,7 +296,8 @@ def run_shard(ctx):
                                   for k in range(24 if ctx.tier == 'quick'
                                                  else 60)]
     per = 120 if ctx.tier == 'quick' else 800
-    counts = [1, -1, 2, 3, 0.217, -0.5, 1.5, 0.392, 7, -2]
+    counts = [1, -1, 2, 3, 0.217, -0.5, 1.5, 0.392, 7, -2,
+              2000000000, 3037000500, -4000000000]
     for spec in specs:
         lib = get_lib(spec)
         basis, M = harness_uq(spec)
